@@ -1242,6 +1242,25 @@ class StateEngine(object):
             elif state_type != "Parallel" and state_type != "Map":
                 #print("---- Storing event id " + str(id))
                 event_ids[index] = id
+        elif not redelivered:
+            """
+            An event of the top level of the State Machine may likewise be
+            delivered, or its deferred Task, Parallel or Map handler may fire,
+            after its execution has ended: the timeout back stop ends an
+            execution whose branch metadata has expired (retained e.g. after
+            a caught Map or Parallel failure) whatever is still queued for it.
+            The execution record says that the execution is over, so the event
+            is dropped rather than left to carry on and end it a second time.
+            """
+            execution_detail = self.executions.get(context["Execution"]["Id"])
+            if execution_detail and execution_detail.get("status") != "RUNNING":
+                self.logger.info(
+                    "Dropping late event for state \"{}\" of {}, which has already ended".format(
+                        context["State"].get("Name"), context["Execution"]["Id"]
+                    )
+                )
+                self.event_dispatcher.acknowledge(id)
+                return True
 
         #print("-----")
 
